@@ -1626,8 +1626,9 @@ def idx_list_to_index_array(idx_list):
     """
     if len(idx_list) == 0:
         return None
-    elif len(idx_list) == 1:
-        return idx_list[0].as_array()
+    elif len(idx_list) == 1 and idx_list[0]._flat_src:
+        # shaped_array resolves negative entries against the source size
+        return idx_list[0].shaped_array()
     else:
         idx = idx_list[0]
         arr = np.arange(shape_to_len(idx._src_shape)).reshape(idx._src_shape)
